@@ -343,7 +343,32 @@ def empty_product_detection(ctx: Ctx, rule: str) -> None:
     raises = [r for r in ast.walk(f.node) if isinstance(r, ast.Raise) and PathEnum._raised_name(r) == "EmptyCartesianProduct"]
     hs = [h for t in ast.walk(f.node) if isinstance(t, ast.Try) for h in t.handlers if ast.unparse(h.type) == "StopIteration"]
     ok = len(raises) == 1 and len(hs) == 1 and any(r is x for r in raises for x in ast.walk(hs[0]))
-    ctx.record(rule + "r", "TABLE", f.ref, "no first variant (StopIteration on the peek) -> EmptyCartesianProduct", ok, {}, "" if ok else "an empty Cartesian product no longer raises")
+    # the detection is reached exactly when requested: the enclosing tests of the peek's try are `show_dictionaries or
+    # show_empty_cartesian_product` and `show_empty_cartesian_product`; every step kind feeds the parser (file / string / dict)
+    def enclosing_tests(node):
+        out = []
+        def walk(cur, acc):
+            for fld in ("body", "orelse"):
+                for ch in getattr(cur, fld, []) or []:
+                    a2 = acc + ([(cur.test, fld == "body")] if isinstance(cur, ast.If) else [])
+                    if ch is node:
+                        out.extend(a2)
+                    walk(ch, a2)
+        walk(f.node, [])
+        return out
+    tr = [t for t in ast.walk(f.node) if isinstance(t, ast.Try) and hs and hs[0] in t.handlers]
+    enc = enclosing_tests(tr[0]) if tr else []
+    want = [norm.formula(ast.parse("show_dictionaries or show_empty_cartesian_product", mode="eval").body), norm.formula(ast.parse("show_empty_cartesian_product", mode="eval").body)]
+    got = [norm.formula(t) if pos else norm.neg(norm.formula(t)) for t, pos in enc]
+    reach_ok = len(got) == 2 and all(any(norm.equivalent(g, w) for g in got) for w in want)
+    feeds = {}
+    for i_ in ast.walk(f.node):
+        if isinstance(i_, ast.If) and isinstance(i_.test, ast.Call) and call_name(i_.test) == "isinstance" and len(i_.body) == 1:
+            feeds[ast.unparse(i_.test.args[1])] = ast.unparse(i_.body[0])
+    feeds_ok = feeds == {"ParsedFile": "parser.parse_file(step.filename)", "ParsedStr": "parser.parse_string(step.content)", "ParsedDict": "parser.parse_string(step.parsable_form())"}
+    ok = ok and reach_ok and feeds_ok
+    ctx.record(rule + "r", "TABLE", f.ref, "no first variant (StopIteration on the peek) -> EmptyCartesianProduct; the peek runs exactly when detection is requested; file / string / dict steps all reach the parser",
+               ok, {"reach": reach_ok, "feeds": feeds}, "" if ok else "an empty Cartesian product no longer raises (or a kind of parsing step is not fed to the parser)")
     g = ctx.repo.func("params_parser.py:all_suffixes_by_restriction")
     ctx.touch(g.ref)
     # structural, not textual: one Reparsable; on it, in order, parse_next_file(f"{key}.cfg"), parse_next_str(restriction), get_parser();
@@ -424,6 +449,8 @@ def run(ctx: Ctx) -> None:
 
 
 MUTANTS = [
+    ("empty-product-detected-only-when-off", "params_parser.py", "            if show_empty_cartesian_product:\n                try:", "            if not show_empty_cartesian_product:\n                try:", "7r"),
+    ("dict-steps-not-parsed", "params_parser.py", "            if isinstance(step, ParsedDict):\n                parser.parse_string(step.parsable_form())", "            if not isinstance(step, ParsedDict):\n                parser.parse_string(step.parsable_form())", "7r"),
     ("object-key-prefix-match", "cmd_parser.py", "if re.fullmatch(f\"(only|no)_{re.escape(vm_name)}\", key):", "if re.match(f\"(only|no)_{vm_name}\", key):", "1x"),
     ("dot-not-split", CMD, "re.split(r\",|\\.|\\.\\.\", value)", "re.split(r\",|\\.\\.\", value)", "1s"),
     ("vm-restriction-replaced", CMD, "                        vm_strs[vm_name] += vm_str", "                        vm_strs[vm_name] = vm_str", "1"),
